@@ -853,6 +853,41 @@ def language_traps(ctx, fns, clause):
                            f"np.isscalar({v}) recognises Python scalars by EXACT type (plus numbers.Number): an instance of a str subclass -- a "
                            f"`class Color(str, Enum)` member, a StrEnum -- is not a scalar, so it is iterated character by character instead of "
                            f"being broadcast", clause=clause)
+    # ---- TRAP-kwmerge: defaults merged OVER the caller's keyword arguments -- dict(kwargs, **DEFAULTS), dict(kwargs, k=v),
+    # {**kwargs, **DEFAULTS}, kwargs.update(DEFAULTS): whatever the caller passed for those keys is silently replaced
+    # (the library's own idiom is kwargs.setdefault(k, v); dict(DEFAULTS, **kwargs) is the merged spelling).
+    # ---- TRAP-frozen: a parameter default that reads a run-time option of the package (dataiter.PRINT_MAX_ROWS ...) is
+    # evaluated once, when the function is defined: changing the option later has no effect on that function.
+    ctx.rule("TRAP-kwmerge", "defaults never override the keyword arguments the caller passed")
+    ctx.rule("TRAP-frozen", "no parameter default reads a run-time option of the package at definition time")
+    for fn in fns:
+        for f in _all_fns([fn]):
+            kwn = f.node.args.kwarg.arg if f.node.args.kwarg is not None else None
+            if kwn is not None:
+                for x in body_nodes(f.node):
+                    bad = None
+                    if isinstance(x, ast.Call) and isinstance(x.func, ast.Name) and x.func.id == "dict" and x.args \
+                            and isinstance(x.args[0], ast.Name) and x.args[0].id == kwn and x.keywords:
+                        bad = x
+                    if isinstance(x, ast.Dict) and any(k is None and isinstance(v, ast.Name) and v.id == kwn for k, v in zip(x.keys, x.values)):
+                        pos = [i for i, (k, v) in enumerate(zip(x.keys, x.values)) if k is None and isinstance(v, ast.Name) and v.id == kwn][0]
+                        if pos < len(x.keys) - 1:
+                            bad = x
+                    if isinstance(x, ast.Call) and isinstance(x.func, ast.Attribute) and x.func.attr == "update" and isinstance(x.func.value, ast.Name) \
+                            and x.func.value.id == kwn and (x.args or x.keywords):
+                        bad = x
+                    if bad is not None:
+                        ctx.ob("TRAP-kwmerge", f, norm(bad)[:70], bad, False,
+                               f"{norm(bad)[:60]} puts the defaults AFTER **{kwn}: a key the caller passed (encoding=, ensure_ascii=, indent= ...) is replaced by "
+                               f"the default, so the option is accepted and silently ignored", clause=clause)
+            a_ = f.node.args
+            for d in list(a_.defaults) + [k for k in a_.kw_defaults if k is not None]:
+                opt = [x for x in ast.walk(d) if isinstance(x, ast.Attribute) and isinstance(x.value, ast.Name) and x.value.id == "dataiter"
+                       and x.attr.isupper()]
+                if opt:
+                    ctx.ob("TRAP-frozen", f, f"default {norm(d)[:50]}", d, False,
+                           f"the default {norm(d)[:40]} is evaluated when the function is defined: after `dataiter.{opt[0].attr} = ...` at run time the "
+                           f"function keeps using the value the option had at import", clause=clause)
     ctx.note(f"TRAP: {n['iter']} one-shot iterators bound to locals, {n['late']} closures over loop variables, "
              f"{n['default']} mutable defaults, {n['shared']} fromkeys(keys, value) calls examined")
 
@@ -1022,3 +1057,86 @@ def bitpattern_keys(ctx, uq, clause, rule="GRD-sentinel"):
                f"payload -- values that are equal (or equally missing) are split into several groups, which sort still treats as ties",
                clause=clause)
     return bool(hits)
+
+
+def argument_as_given(ctx, fn, param, legit, clause, rule="ARG-asgiven"):
+    """ARG-asgiven: every rebinding `param = <expr>` in ``fn`` is the identity on the LEGITIMATE argument values listed in
+    ``legit`` (values the statement covers although they are falsy: q = 0, an empty selection, n = 0; or an explicit value that
+    must win over state).  The expression is evaluated symbolically: `or` / `and` / `not` / conditional expressions /
+    `is None` tests over the parameter (truthiness of the legit value), constants, and other operands as opaque atoms that are
+    tried both truthy and falsy.  A result other than the parameter itself for some legit value is reported."""
+    import itertools
+    ctx.rule(rule, "rebindings of an argument keep every legitimate value the caller can pass (0, empty, explicit)")
+    n = 0
+    for a in [x for x in body_nodes(fn.node) if isinstance(x, ast.Assign) and len(x.targets) == 1 and isinstance(x.targets[0], ast.Name)
+              and x.targets[0].id == param]:
+        expr = a.value
+        atoms = []
+
+        def collect(e):
+            if isinstance(e, ast.Name) and e.id == param or isinstance(e, ast.Constant):
+                return
+            if isinstance(e, ast.BoolOp):
+                for v in e.values:
+                    collect(v)
+            elif isinstance(e, ast.UnaryOp) and isinstance(e.op, ast.Not):
+                collect(e.operand)
+            elif isinstance(e, ast.IfExp):
+                collect(e.test), collect(e.body), collect(e.orelse)
+            elif isinstance(e, ast.Compare) and len(e.ops) == 1 and isinstance(e.ops[0], (ast.Is, ast.IsNot)) and norm(e.comparators[0]) == "None":
+                collect(e.left)
+            else:
+                t = norm(e)
+                if t not in atoms:
+                    atoms.append(t)
+                if any(isinstance(y, ast.Name) and y.id == param for y in ast.walk(e)) and t not in uses_param:
+                    uses_param.append(t)
+        uses_param = []
+        collect(expr)
+        if uses_param or len(atoms) > 4:
+            continue        # the parameter is transformed, not defaulted: not this rule's business
+        n += 1
+
+        def ev(e, val, truth):
+            """-> ("P",) | ("C", const) | ("A", text) | ("B", bool)"""
+            if isinstance(e, ast.Name) and e.id == param:
+                return ("P",)
+            if isinstance(e, ast.Constant):
+                return ("C", e.value)
+            if isinstance(e, ast.BoolOp):
+                last = None
+                for v in e.values:
+                    last = ev(v, val, truth)
+                    t = tr(last, val, truth)
+                    if (isinstance(e.op, ast.Or) and t) or (isinstance(e.op, ast.And) and not t):
+                        return last
+                return last
+            if isinstance(e, ast.UnaryOp) and isinstance(e.op, ast.Not):
+                return ("B", not tr(ev(e.operand, val, truth), val, truth))
+            if isinstance(e, ast.IfExp):
+                return ev(e.body if tr(ev(e.test, val, truth), val, truth) else e.orelse, val, truth)
+            if isinstance(e, ast.Compare) and len(e.ops) == 1 and isinstance(e.ops[0], (ast.Is, ast.IsNot)) and norm(e.comparators[0]) == "None":
+                l = ev(e.left, val, truth)
+                is_none = (l[0] == "C" and l[1] is None) or (l[0] == "A" and not truth[l[1]])
+                return ("B", is_none == isinstance(e.ops[0], ast.Is))
+            return ("A", norm(e))
+
+        def tr(tok, val, truth):
+            if tok[0] == "P":
+                return bool(val)
+            if tok[0] in ("C", "B"):
+                return bool(tok[1])
+            return truth[tok[1]]
+        witness = None
+        for val in legit:
+            for combo in itertools.product((True, False), repeat=len(atoms)):
+                truth = dict(zip(atoms, combo))
+                r = ev(expr, val, truth)
+                if r != ("P",) and witness is None:
+                    witness = (val, {k: v for k, v in truth.items()}, r)
+        ctx.ob(rule, fn, norm(a)[:70], a, witness is None,
+               f"every legitimate value of {param} survives" if witness is None else
+               f"`{norm(a)[:60]}` replaces the argument {param} = {witness[0]!r} by {witness[2][1] if len(witness[2]) > 1 else witness[2]}"
+               f"{' (when ' + ', '.join(k + (' is set' if v else ' is empty / None') for k, v in witness[1].items()) + ')' if witness[1] else ''}: "
+               f"a value the caller passed deliberately is treated as `not given`", clause=clause)
+    return n
